@@ -78,12 +78,12 @@ Proof. vm_compute. reflexivity. Qed.
 (* the converse: a node for which some considered entry has room in every configured family is served when its
    work item runs and the write succeeds (one PATCH, one block per configured family, result Ok) *)
 Theorem C05_servable_node_is_served :
-  forall po lab canp apisame held m node nr outs ps,
+  forall po lab svcs canp apisame held m node nr outs ps,
   MapInv m -> KU m -> n_cidrs node = [] -> n_deleting node = false -> n_cidrs nr = [] ->
   (forall cs, canp cs = true) ->
   ordered_matching po lab m (n_labels node) true = Ok ps ->
   (exists p c, In p ps /\ get_entry m p = Some c /\ ~ no_room m held c) ->
   exists m' cs, cs <> [] /\
-    sync_node po lab canp apisame held m (Some node) (Some nr) (POk :: outs) = (m', Ok tt, [FxPatch (n_name node) cs POk]).
+    sync_node po lab svcs canp apisame held m (Some node) (Some nr) (POk :: outs) = (m', Ok tt, [FxPatch (n_name node) cs POk]).
 Proof. exact servable_node_is_served. Qed.
 Print Assumptions C05_servable_node_is_served.
